@@ -296,6 +296,8 @@ fn handle_run(req: &Request, resp: &mut Response) -> bool {
                 "only" => GcMode::Only(g.only.clone()),
                 _ => GcMode::Default,
             });
+            // "paced_always": the threshold-paced path of an optimised build collects at every allocation
+            verif::set_pace_at_every_allocation(g.mode == "paced_always");
             verif::set_quarantine(g.quarantine);
         }
         if req.want.iter().any(|w| w == "alloc_log") {
@@ -367,6 +369,7 @@ fn handle_run(req: &Request, resp: &mut Response) -> bool {
             resp.heap = Some(heap_dump());
         }
         verif::set_gc_mode(GcMode::Default);
+        verif::set_pace_at_every_allocation(false);
         if panicked {
             // Do not touch the heap further.
             std::mem::forget(vm);
